@@ -163,6 +163,8 @@ func (h *harness) genFamily(r *hx.Rand, wi int, fam int) []histStep {
 		{jsonAPI + `; profile="p` + tok, `q"`},                     // joined: one quoted parameter value containing ", "
 		{jsonAPI + "; ext=u" + tok, jsonAPI + `; profile=p` + tok}, // split: second line acceptable
 		{filler, "*/*"},
+		{jsonAPI, jsonAPI + "; ext=u" + tok}, // acceptable instance first, unacceptable last
+		{jsonAPI + "; profile=p" + tok, filler, jsonAPI + "; q=0.5"}, // likewise, three values
 	}
 	for _, vs := range valueSets {
 		for _, lines := range splitVariants(vs) {
